@@ -126,17 +126,21 @@ def main(ctx):
                "split into 1..3 files of 1..2 (3) records x start {-1,0,1,2,4} x factor {1,2} x look-ahead {0,1}, each replayed "
                "with limit None and 1 and in one of seven file forms (plain, gz, bz2, plain+gz duplicates, comment+corrupt "
                "lines, comments first and last, un-openable entries beside the files).  Non-trivial: more than one file, or equal timestamps, or a start inside the history.")
-    ev.assumptions = ["integer-second timestamps (the millisecond epsilon of timestamp comparison is C17's subject)",
-                      "load() is called at every wall-clock tick until it returns no events, as the loader documents"]
+    ev.assumptions = ["load() schedules: at every tick either repeated until it returns nothing (as the loader documents), or exactly once (limit 1 / unlimited)",
+                      "integer-second timestamps (the millisecond epsilon of timestamp comparison is C17's subject)"]
     jobs = []
     for n, j in enumerate(scs):
         jobs.append((j, 0, n % 7))
         jobs.append((j, 1, (n + 2) % 7))
+        if n % 3 == 0:
+            jobs.append((j, 1, (n + 4) % 7, 1))            # exactly one load(limit=1) per tick: the rest is left for later ticks
+        if n % 5 == 0:
+            jobs.append((j, 0, (n + 5) % 7, 1))            # exactly one unlimited load per tick
     lines = core.pmap(histlib.run_scenario, jobs, chunksize=32)
     for ln in lines:
         sc = ln["sc"]
         nt = len(sc["files"]) > 1 or sc["start"] > 0
-        ev.case(key=(json.dumps(sc), ln["limit"], ln["variant"]), nontrivial=nt)
+        ev.case(key=(json.dumps(sc), ln["limit"], ln["variant"], ln.get("per_tick", 12)), nontrivial=nt)
     ev.sample({"scenario": lines[len(lines) // 2]["sc"], "limit": lines[len(lines) // 2]["limit"], "file_form": lines[len(lines) // 2]["variant"],
                "loads": lines[len(lines) // 2]["ev"][:8]})
     for i, ln in enumerate(lines):
